@@ -830,8 +830,9 @@ def run(replay=None):
 
     def one(run_):
         mode, maxlen, prune, cfgs, emitmax = run_
+        # several JVMs run side by side: a bounded heap each (the largest run has about 1e6 states)
         return C.run_tlc(wd, "DipExprGen", cfg_text(mode, maxlen, prune, "enum", cfgs, emitmax=emitmax),
-                         workers=wk, copy_specs=False)
+                         workers=wk, copy_specs=False, env={"JAVA_TOOL_OPTIONS": "-Xmx5g"})
     with ThreadPoolExecutor(par) as ex:
         results = list(ex.map(one, runs))
     for (mode, maxlen, prune, cfgs, emitmax), r in zip(runs, results):
